@@ -144,11 +144,15 @@ theorem temporal_reject_alone (p : TemporalEnhancing.P) (s : TemporalEnhancing.S
   split
   · rfl
   · rename_i hc
-    simp only [hc] at h
-    split at h
-    · simp [rejectedIn_append, rejectedIn_replicate_dealt] at h
+    exfalso
+    rw [if_neg hc] at h
+    simp only [] at h
+    by_cases hr : s.reforgedCooldown.available = true
+    · rw [if_pos hr] at h
+      simp [rejectedIn_append, rejectedIn_replicate_dealt] at h
       simp [rejectedIn, REv.isReject] at h
-    · simp [rejectedIn, REv.isReject] at h
+    · rw [if_neg hr] at h
+      simp [rejectedIn, REv.isReject] at h
 theorem temporal_elapse_never_rejects (p : TemporalEnhancing.P) (t : Int) (s : TemporalEnhancing.S) :
     rejectedIn (TemporalEnhancing.elapse p t s).2 = false := by
   simp [TemporalEnhancing.elapse, rejectedIn, REv.isReject]
